@@ -51,6 +51,9 @@ func newNfEnv() *nfEnv {
 	e := &nfEnv{vEnv: newVEnv(types.StoreKey, 10)}
 	e.bank.modules[nft.ModuleName] = nil
 	e.creator, e.owner, e.stranger = vAddr(1), vAddr(2), vAddr(3)
+	if verifChoice("creatorHoldsToken", 2) == 1 {
+		e.owner = e.creator // the class creator mints the first token to itself: owner and creator are one account
+	}
 	ss := vStoreService{e.store()}
 	e.k = Keeper{storeService: ss, cdc: e.cdc, nk: nftkeeper.NewKeeper(ss, e.cdc, nfAccount{e.acc}, e.bank)}
 	e.mintR, e.updR = verifBool("mintRestricted"), verifBool("updateRestricted")
@@ -69,21 +72,23 @@ func newNfEnv() *nfEnv {
 	return e
 }
 
-func (e *nfEnv) actor(name string) (sdk.AccAddress, string) {
-	switch verifChoice(name, 3) {
-	case 0:
-		return e.owner, "owner"
-	case 1:
-		return e.creator, "creator"
-	}
-	return e.stranger, "stranger"
+// actor: the token's owner, the class creator (possibly the same account) or a stranger; the roles are
+// decided by the address, not by the choice
+type nfWho struct{ owner, creator bool }
+
+func (e *nfEnv) actor(name string) (sdk.AccAddress, nfWho) {
+	a := []sdk.AccAddress{e.owner, e.creator, e.stranger}[verifChoice(name, 3)]
+	return a, nfWho{owner: a.Equals(e.owner), creator: a.Equals(e.creator)}
 }
 
 // supply(class) == number of tokens == sum of the owners' balances
 func (e *nfEnv) assertCounts() {
 	n := uint64(len(e.k.nk.GetNFTsOfClass(e.ctx, nfClass)))
 	sum := uint64(0)
-	for _, a := range []sdk.AccAddress{e.creator, e.owner, e.stranger} {
+	for i, a := range []sdk.AccAddress{e.creator, e.owner, e.stranger} {
+		if i == 1 && a.Equals(e.creator) {
+			continue
+		}
 		sum += e.k.nk.GetBalance(e.ctx, nfClass, a)
 	}
 	verifAssert(e.k.nk.GetTotalSupply(e.ctx, nfClass) == n && sum == n, "supply = number of tokens = sum of balances")
@@ -107,12 +112,12 @@ func VerifC14_Mint() {
 	if err != nil {
 		verifCover("refused")
 		verifAssert(id == nfToken || !e.k.HasNFT(e.ctx, nfClass, id), "a refused mint creates nothing")
-		verifAssert(!(id != nfToken && (who == "creator" || !e.mintR)), "a mint with a fresh id is refused only for a non-creator in a mint-restricted class")
+		verifAssert(!(id != nfToken && (who.creator || !e.mintR)), "a mint with a fresh id is refused only for a non-creator in a mint-restricted class")
 		return
 	}
 	verifCover("minted")
 	verifAssert(id != nfToken, "a token id is never reused while the token exists")
-	verifAssert(!e.mintR || who == "creator", "minting into a mint-restricted class is possible only for the class creator")
+	verifAssert(!e.mintR || who.creator, "minting into a mint-restricted class is possible only for the class creator")
 	verifAssert(e.ownerOf(id).Equals(recipient), "the new token belongs to the recipient")
 }
 
@@ -136,7 +141,7 @@ func VerifC14_Edit() {
 		return
 	}
 	verifCover("edited")
-	verifAssert(who == "owner", "only the current owner can edit a token")
+	verifAssert(who.owner, "only the current owner can edit a token")
 	verifAssert(!e.updR, "tokens of an update-restricted class never change their metadata (edit)")
 }
 
@@ -158,7 +163,7 @@ func VerifC14_Transfer() {
 		return
 	}
 	verifCover("transferred")
-	verifAssert(who == "owner", "only the current owner can transfer a token")
+	verifAssert(who.owner, "only the current owner can transfer a token")
 	verifAssert(after.GetOwner().Equals(e.stranger), "the token has exactly one owner: the recipient")
 	verifAssert(!e.updR || after.GetName() == before.GetName(), "tokens of an update-restricted class never change their metadata (transfer)")
 }
@@ -177,7 +182,7 @@ func VerifC14_Burn() {
 		return
 	}
 	verifCover("burned")
-	verifAssert(who == "owner", "only the current owner can burn a token")
+	verifAssert(who.owner, "only the current owner can burn a token")
 	verifAssert(!e.k.HasNFT(e.ctx, nfClass, nfToken), "a burned token is gone")
 }
 
@@ -197,6 +202,6 @@ func VerifC14_TransferClass() {
 		return
 	}
 	verifCover("handed-over")
-	verifAssert(who == "creator", "a class changes hands only by its current creator")
+	verifAssert(who.creator, "a class changes hands only by its current creator")
 	verifAssert(d.Creator == e.stranger.String(), "new creator recorded")
 }
